@@ -43,6 +43,53 @@ theorem adaptLeaf_float_ok (O : Oracle) (v w : Val) (h : adaptLeaf O .float v = 
   · rename_i r hr; simp at h; subst h; exact ⟨r, rfl, Or.inl hr⟩
   · simp at h
 
+/-! ### registered types -/
+
+theorem rnumConv_has (O : Oracle) (b : RBase) (v w : Val) (h : rnumConv O b v = some w) : b.has w = true := by
+  cases b <;> cases v <;> simp [rnumConv] at h
+  all_goals first
+    | (subst h; rfl)
+    | (obtain ⟨_, _, rfl⟩ := h; rfl)
+    | (split at h <;> simp at h; subst h; rfl)
+
+theorem rnumConv_fix (O : Oracle) (b : RBase) (w : Val) (h : b.has w = true) : rnumConv O b w = some w := by
+  cases b <;> cases w <;> simp [RBase.has] at h <;> rfl
+
+theorem adaptRnum_ok (O : Oracle) (b : RBase) (k : Nat) (v w : Val) (h : adaptRnum O false b k v = .ok w) :
+    b.has w = true ∧ O.rnumOk k w = true ∧ rnumConv O b v = some w := by
+  unfold adaptRnum at h
+  simp only [Bool.false_eq_true, if_false] at h
+  cases hc : rnumConv O b v with
+  | none => simp [hc] at h
+  | some w' =>
+    simp only [hc] at h
+    split at h
+    · rename_i hk; simp at h; subst h; exact ⟨rnumConv_has O b v w' hc, hk, rfl⟩
+    · simp at h
+
+theorem adaptReg_ok (O : Oracle) (k : Nat) (v w : Val) (h : adaptReg O false k v = .ok w) : ∃ r, w = .obj k r := by
+  unfold adaptReg at h
+  simp only [Bool.false_eq_true, if_false] at h
+  have key : ∀ u, (match O.regDeser k u with
+      | some (.obj k'' r') => if k = k'' then (.ok (.obj k'' r') : Except Err Val) else .error .value
+      | _ => .error .value) = .ok w → ∃ r, w = .obj k r := by
+    intro u hu
+    split at hu
+    · split at hu
+      · rename_i hk; simp at hu; subst hu; subst hk; exact ⟨_, rfl⟩
+      · simp at hu
+    · simp at hu
+  cases v with
+  | obj k' r =>
+    simp only at h
+    split at h
+    · rename_i hk; simp at h; subst h; subst hk; exact ⟨_, rfl⟩
+    · exact key _ h
+  | _ => exact key _ h
+
+theorem adaptReg_obj (O : Oracle) (k : Nat) (r : String) : adaptReg O false k (.obj k r) = .ok (.obj k r) := by
+  simp [adaptReg]
+
 /-! ### `allM` -/
 
 inductive F2 {α β : Type} (R : α → β → Prop) : List α → List β → Prop
